@@ -24,6 +24,7 @@ RULE = ('one evaluation = one seeded sequence of 15-150 backend calls (add, get,
         'with ModelDjango; non-trivial = at least 10 calls; distinct = SHA-256 of (parameters, program)')
 RULE += ' ' + 'Values include str / int subclasses and bools, compared by type.'
 RULE += ' ' + 'In 40 % of the get_or_set calls with a callable, the callable lets a second backend object store the key meanwhile.'
+RULE += ' ' + 'Timeouts include 30 days, 30 days + 1 s, 40 days and a year (also as backend TIMEOUT), with clock steps of that size.'
 ASSUMPTIONS = ['outcomes the contract leaves open are accepted either way: return value of set/clear/set_many success, delete() of an expired key',
                'live <=> expire_time > now (zero or negative timeout means already expired)']
 PROBES = ('expired_lookups', 'version_ops', 'tie_instant_reached')
@@ -45,12 +46,14 @@ def distinct_keys(keys):
 VALUES = [0, 1, 5, 'v', {'t': [1, 2]}, None, {'b': '00'}, {'l': [1]}, {'f': '1.5'}, '', {'l': []}, {'f': '0.0'}, -1,
           # any picklable value comes back as the object it was - a str subclass (Django's SafeString), a bool, an int subclass
           {'sub': ['str', '<b>safe</b>']}, {'sub': ['str', 'x' * 40000]}, True, False, {'sub': ['int', 3]}]
-TIMEOUTS = ['DEFAULT', 'DEFAULT', None, 0, -1, 1, 2.5, 100]
+TIMEOUTS = ['DEFAULT', 'DEFAULT', None, 0, -1, 1, 2.5, 100,
+            # weeks and years (memcached treats anything above 30 days as an absolute time; this backend must not)
+            2592000, 2592001, 40 * 86400, 365 * 86400]
 
 
 def gen_case(seed, tier):
     rng = random.Random('%s/c19' % seed)
-    params = {'TIMEOUT': rng.choice((300, 300, None, 5, 0, 2.5)), 'KEY_PREFIX': rng.choice(('', '', 'p', 'x:y')),
+    params = {'TIMEOUT': rng.choice((300, 300, None, 5, 0, 2.5, 365 * 86400)), 'KEY_PREFIX': rng.choice(('', '', 'p', 'x:y')),
               'VERSION': rng.choice((1, 1, 2)), 'SHARDS': rng.choice((1, 2, 3, 5, 8, 13))}
     if rng.random() < 0.25:
         # a KEY_FUNCTION that depends on context (the multi-tenant pattern): it is consulted on every operation
@@ -102,7 +105,7 @@ def gen_case(seed, tier):
         elif r < 0.945:
             op = {'op': 'close'}     # Django closes every backend at the end of each request; it stays usable
         else:
-            op = {'op': 'advance', 'dt': rng.choice((0, 0.5, 1, 1, 2, 2.5, 3, 5, 100, 301))}
+            op = {'op': 'advance', 'dt': rng.choice((0, 0.5, 1, 1, 2, 2.5, 3, 5, 100, 301, 301, 2592000, 41 * 86400, 366 * 86400))}
         if op.get('op') in ('in',):
             op['version'] = None
         if op.get('version') is not None and rng.random() < 0.3:
